@@ -344,6 +344,9 @@ where
 
 static OUT: Mutex<Option<Outputs>> = Mutex::new(None);
 
+type FinalDump = Box<dyn Fn() -> Vec<String> + Send>;
+static FINAL: Mutex<Option<FinalDump>> = Mutex::new(None);
+
 struct Outputs {
     trace_out: Option<String>,
     sched_out: Option<String>,
@@ -353,6 +356,14 @@ struct Outputs {
 
 /// Writes the trace, schedule and statistics and terminates the process.
 pub fn dump_and_exit(code: i32) -> ! {
+    if code == 0 || code == 5 {
+        // Nobody runs any more: dump the final state for comparison with the model's.
+        let lines = match FINAL.lock().unwrap_or_else(|e| e.into_inner()).as_ref() {
+            Some(f) => f(),
+            None => vec![],
+        };
+        with_world(|w| w.log.extend(lines));
+    }
     let (log, stats, steps) = {
         let g = rt::WORLD.lock().unwrap_or_else(|e| e.into_inner());
         let w = g.as_ref().unwrap();
@@ -461,6 +472,67 @@ where
         }
     }
 
+    let consumed: Vec<usize> = prog
+        .threads
+        .iter()
+        .flatten()
+        .filter_map(|c| match c {
+            Cmd::CInto(c, _) | Cmd::CDrop(c) => Some(*c),
+            _ => None,
+        })
+        .collect();
+    let ncont = prog.inits.len();
+    *FINAL.lock().unwrap() = Some(Box::new(move || {
+        let mut out = Vec::new();
+        for c in 0..ncont {
+            if consumed.contains(&c) {
+                continue;
+            }
+            let a = with_world(|w| w.storages[c]);
+            out.push(format!(". FINAL store {} {}", c, unsafe { arc_swap::verif::peek(a) }));
+        }
+        with_world(|w| {
+            for (k, cell) in w.cells.iter().enumerate() {
+                if cell.alive {
+                    out.push(format!(". FINAL cell {} {} {}", rt::addr_of_cell(k), cell.count, cell.oid));
+                }
+            }
+        });
+        {
+            let hs = tables.handles.lock().unwrap_or_else(|e| e.into_inner());
+            for (h, v) in hs.iter().enumerate() {
+                match v {
+                    Handle::Empty => (),
+                    Handle::Owned(v) => out.push(format!(". FINAL handle {} O {}", h, addr_of(v))),
+                    Handle::Guard(g) => out.push(format!(". FINAL handle {} G {}", h, addr_of(g))),
+                    Handle::Cache(_) => out.push(format!(". FINAL handle {} C ?", h)),
+                }
+            }
+        }
+        let nodes = arc_swap::verif::nodes();
+        let peek = |a: usize| unsafe { arc_swap::verif::peek(a) };
+        for (n, nd) in nodes.iter().enumerate() {
+            for (i, &a) in nd.fast.iter().enumerate() {
+                if peek(a) != 3 {
+                    out.push(format!(". FINAL slot {} {} {}", n, i, peek(a)));
+                }
+            }
+            if peek(nd.slot) != 3 {
+                out.push(format!(". FINAL slot {} 8 {}", n, peek(nd.slot)));
+            }
+            let offer = peek(nd.space_offer);
+            let offer = nodes.iter().position(|x| x.handover == offer).map(|e| 4 * (e + 1)).unwrap_or(0);
+            let ctrl = peek(nd.control);
+            let ctrl = if ctrl & 3 == 1 {
+                nodes.iter().position(|x| x.handover == ctrl & !3).map(|e| 4 * (e + 1) + 1).unwrap_or(1)
+            } else {
+                ctrl
+            };
+            out.push(format!(". FINAL node {} {} {} {} {}", n, peek(nd.in_use), peek(nd.active_writers), ctrl, offer));
+        }
+        out
+    }));
+
     std::panic::set_hook(Box::new(|info| {
         let msg = if let Some(s) = info.payload().downcast_ref::<&str>() {
             s.to_string()
@@ -529,6 +601,22 @@ where
     let spur = if policy == "spurious" { 25 } else { 2 };
     let mut last: Option<usize> = None;
     let mut step_no: usize = 0;
+    // script policy: "script:<t>x<n>,<t>x<n>,..." = run thread t for n steps (0: until it
+    // blocks or finishes), then the next entry; afterwards the lowest enabled thread.
+    let script: Vec<(usize, u64)> = match policy.strip_prefix("script:") {
+        Some(sp) => sp
+            .split(',')
+            .filter(|e| !e.is_empty())
+            .map(|e| {
+                let (a, b) = e.split_once('x').expect("script entry");
+                (a.parse().unwrap(), b.parse().unwrap())
+            })
+            .collect(),
+        None => vec![],
+    };
+    let is_script = policy.starts_with("script:");
+    let mut sidx = 0usize;
+    let mut sused = 0u64;
     // pct: random priorities, changed at a few random points
     let mut prio: Vec<u64> = (0..nthreads).map(|_| rng.next()).collect();
     let change_every = 10 + rng.below(40);
@@ -580,6 +668,20 @@ where
             }
             None => {
                 let t = match policy.as_str() {
+                    _ if is_script => {
+                        let mut pick = None;
+                        while sidx < script.len() {
+                            let (st, sn) = script[sidx];
+                            if enabled.contains(&st) && (sn == 0 || sused < sn) {
+                                pick = Some(st);
+                                sused += 1;
+                                break;
+                            }
+                            sidx += 1;
+                            sused = 0;
+                        }
+                        pick.unwrap_or(enabled[0])
+                    }
                     "pct" => {
                         if step_no as u64 % change_every == 0 {
                             let i = rng.below(nthreads as u64) as usize;
@@ -594,7 +696,7 @@ where
                 };
                 let x = match &w.parked[t] {
                     Some(Pending::Acc { weak: true }) => {
-                        if rng.below(100) < spur {
+                        if !is_script && rng.below(100) < spur {
                             1
                         } else {
                             0
@@ -606,8 +708,8 @@ where
                         assert!(!free.is_empty(), "arena full");
                         let recent = free.iter().copied().filter(|&k| w.cells[k].freed_at > 0).max_by_key(|&k| w.cells[k].freed_at);
                         let k = match recent {
-                            Some(k) if rng.below(100) < 70 => k,
-                            _ => free[rng.below(free.len().min(4) as u64) as usize],
+                            Some(k) if is_script || rng.below(100) < 70 => k,
+                            _ => free[if is_script { 0 } else { rng.below(free.len().min(4) as u64) as usize }],
                         };
                         rt::addr_of_cell(k) as u64
                     }
